@@ -12,7 +12,7 @@ namespace TaskModel.Sched.S7
 /-- do the checks that precede the call counter pass for task `t`? -/
 def bumps (P : Program) (t : Nat) : Bool :=
   match P[t]? with
-  | some d => d.platformOk && d.requiresOk && d.enumOk
+  | some d => d.platformOk && d.requiresOk && d.compileOk && d.enumOk
   | none => false
 
 def isEnterOf (t : Nat) (l : Label) : Bool :=
@@ -44,7 +44,7 @@ theorem callCount_bump (P : Program) (c : Config) (t' t : Nat) :
   | none => simp
   | some d =>
     simp only
-    by_cases hg : (d.platformOk && d.requiresOk && d.enumOk) = true
+    by_cases hg : (d.platformOk && d.requiresOk && d.compileOk && d.enumOk) = true
     · rw [if_pos hg]
       by_cases ht : t = t'
       · subst ht; simp [Config.callCount, List.lookup, hg]
@@ -94,7 +94,7 @@ theorem freshAct_limit (P : Program) (F : Flags) (c : Config) (kind : Kind) (t :
   | some d =>
     rw [hd] at hb
     simp only [Bool.and_eq_true] at hb
-    simp [hb.1.1, hb.1.2, hb.2, hl]
+    simp [hb.1.1.1, hb.1.1.2, hb.1.2, hb.2, hl]
 
 /-! ### the counting invariant -/
 
